@@ -12,6 +12,7 @@ object-vs-array agreement, no exception on in-domain input; "twin objects" (two 
 caller array, one of them corrected in place): the untouched one keeps its values bit-for-bit and both stay consistent
 under the object monitors.
 """
+import copy
 import warnings
 import weakref
 
@@ -111,13 +112,21 @@ def _domain(acc, dt, trap=True, min_len=2):
         return 'not-array'
     if arr.ndim != 1:
         return 'not-1d'
-    if arr.dtype.kind not in 'fiu':
+    if arr.dtype.kind == 'c':
+        # the library's own fas2signal returns records with a rounding-level imaginary part: in domain (judged with
+        # complex arithmetic); genuinely complex "accelerations" are outside the statement
+        if len(arr) >= min_len and np.all(np.isfinite(arr)) and \
+                float(np.max(np.abs(arr.imag))) <= 1e-9 * float(np.max(np.abs(arr.real))):
+            pass
+        else:
+            return 'complex-record'
+    elif arr.dtype.kind not in 'fiu':
         return 'dtype-kind-' + arr.dtype.kind
     if arr.dtype.kind == 'f' and arr.dtype.itemsize < 4:
         return 'float16'
     if len(arr) < min_len:
         return 'length<%d' % min_len
-    if arr.dtype.kind == 'f':
+    if arr.dtype.kind in 'fc':
         if not bool(np.all(np.isfinite(arr))):
             return 'nonfinite-record'
     else:
@@ -221,14 +230,13 @@ def _wit_obj(obj, what):
 # ------------------------------------------------------------------------------------------------------ monitors
 def _check_inc(ctx, clause, series, integrand, dt, rules, eps, wit, label):
     """Increment identity at every index; with several admissible rules one of them must hold at EVERY index."""
-    tol = O.increment_tolerance(series, integrand, dt, eps)
     best = None
     for r in rules:
-        err, i = O.increment_defect(series, integrand, dt, r)
-        if best is None or err < best[0]:
-            best = (err, i, r)
-    err, i, r = best
-    return ctx.check(err <= tol, clause, wit,
+        okk, i, err, tol = O.increment_check(series, integrand, dt, r, eps)
+        if best is None or (okk and not best[0]) or (okk == best[0] and err - tol < best[2] - best[3]):
+            best = (okk, i, err, tol, r)
+    okk, i, err, tol, r = best
+    return ctx.check(okk, clause, wit,
                      '%s: increment identity (%s rule) broken at i=%s: |defect|=%.3g allowed=%.3g (n=%d, dt=%r)'
                      % (label, r, i, err, tol, len(series), dt))
 
@@ -293,6 +301,11 @@ def check_array(ctx, fn, acc, dt, trap, result, orig=None):
     if not ctx.check(bool(np.all(np.isfinite(vf)) and np.all(np.isfinite(df))), 'array.finite', wit,
                      '%s: non-finite output on finite input' % label):
         return
+    shared = np.shares_memory(v, d) or (isinstance(orig, np.ndarray) and (np.shares_memory(v, orig)
+                                                                         or np.shares_memory(d, orig)))
+    ctx.check(not shared, 'array.result-owns-data', wit,
+              '%s: the returned series share memory with %s (an in-place correction of one would change the other)'
+              % (label, 'each other' if np.shares_memory(v, d) else 'the argument'))
     ctx.check(vf[0] == 0 and df[0] == 0, 'array.start==0', wit,
               '%s: series start at v[0]=%r d[0]=%r, not zero' % (label, vf[0], df[0]))
     if trap:
@@ -473,7 +486,13 @@ def _wrap_property(cls, name, post):
         if not attach.STATE['enabled']:
             return orig(self)
         attach.CALLS[qual] = attach.CALLS.get(qual, 0) + 1
+        v0 = np.asarray(self.values)
+        before = (v0.dtype, v0.shape, v0.tobytes(), self.npts, repr(self.dt))
         result = orig(self)
+        v1 = np.asarray(self.values)
+        CTX.check((v1.dtype, v1.shape, v1.tobytes(), self.npts, repr(self.dt)) == before,
+                  'obj.read-leaves-record-unchanged', lambda: _wit_obj(self, name),
+                  'reading AccSignal.%s changed the object\'s values / npts / dt (n=%d)' % (name, len(v0)))
         for p in posts:
             p(self, result)
         return result
@@ -533,6 +552,7 @@ ARRAY_CONTAINERS = ['f64', 'f64', 'f64', 'f32', 'f32', 'i64', 'i64', 'i32', 'i16
 OBJ_CONTAINERS = ['f64', 'f64', 'f32', 'f32', 'i64', 'i64', 'i32', 'i16', 'i8', 'u8', 'u16', 'list', 'list', 'tuple',
                   'intlist', 'mixedlist', 'strided', 'reversed', 'readonly', 'narrow-full']
 EXTRA_CLASSES = ['neg-only', 'pos-only', 'const', 'const', 'linear', 'linear', 'linear', 'extreme-first', 'extreme-last',
+                 'spike-dynamic-range', 'spike-dynamic-range', 'tail-heavy', 'single-changed', 'alt+offset',
                  'plateau-start', 'plateau-end', 'ends-after-sign-change', 'offset-small-signal', 'scaled']
 INT_TOP = {'i64': 1e9, 'i32': 1e6, 'i16': 32000.0, 'i8': 127.0, 'u8': 255.0, 'u16': 65000.0, 'intlist': 1e6}
 INT_DTYPE = {'i64': np.int64, 'i32': np.int32, 'i16': np.int16, 'i8': np.int8, 'u8': np.uint8, 'u16': np.uint16,
@@ -553,8 +573,10 @@ def pick_n(rng, nmax=5000):
 
 def pick_dt(rng):
     r = rng.random()
-    if r < 0.58:
+    if r < 0.50:
         dt = gen.dt(rng)
+    elif r < 0.58:
+        dt = gen.awkward_dt(rng, int(rng.integers(2, 13)))      # dt/(dt/k) != k etc.
     elif r < 0.70:
         dt = float(10.0 ** rng.uniform(-5, 1))
     elif r < 0.80:
@@ -628,6 +650,22 @@ def _shaped_record(rng, n, cls):
         x = sgn * 10.0 ** rng.uniform(3, 8) + x / peak * 10.0 ** rng.uniform(-6, -2)
     elif cls == 'scaled':
         x = x * (10.0 ** rng.uniform(-12, 12) / peak)
+    elif cls == 'spike-dynamic-range':
+        # one sample 1e3 .. 1e16 times larger than the others (at the start, the end or inside)
+        x = x / peak * 10.0 ** rng.uniform(-6, 0)
+        j = [0, n - 1, int(rng.integers(n))][int(rng.integers(3))]
+        x[j] = sgn * 10.0 ** rng.uniform(3, 10)
+        if rng.random() < 0.4:          # ... and a second one of opposite sign right after it
+            x[min(n - 1, j + 1)] = -x[j]
+    elif cls == 'tail-heavy':
+        m = max(1, n - max(1, n // int(rng.integers(3, 11))))
+        x[:m] *= 10.0 ** rng.uniform(-9, -7)        # quiet (not silent) lead-in, all the action in the last 1/k
+    elif cls == 'single-changed':
+        x = np.full(n, float(rng.choice([0.0, 1.0, -2.5, 1e-3])))
+        j = [0, n - 1, int(rng.integers(n))][int(rng.integers(3))]
+        x[j] += sgn * float(rng.choice([1.0, 1e-6, 3.0]))
+    elif cls == 'alt+offset':
+        x = (-1.0) ** np.arange(n) * float(rng.choice([1.0, 0.5, 3.0])) + float(rng.choice([0.0, 0.25, -7.0]))
     return x
 
 
@@ -834,10 +872,7 @@ def _rel_tols(eps, n, dt, vs, As, ds):
     """Worst-case rounding allowance for comparing running sums of related records: a running sum of n terms is
     off by at most ~n*eps*max|partial sum| plus eps*sum|terms| <= eps*n*dt*max|a|; the error of v propagates into d
     through n further panels of width dt."""
-    dt = abs(float(dt))
-    tv = 4.0 * eps * n * (vs + dt * As)
-    td = 4.0 * eps * n * (ds + dt * vs) + n * dt * tv
-    return tv, td
+    return O.running_sum_tolerances(eps, n, dt, As, vs, ds)
 
 
 def _styled_call(fn, X, dt, trap, style):
@@ -933,7 +968,8 @@ def _array_case(eqsig, ctx, case, held):
         clause = 'array.exact.const' if k == 0 else 'array.exact.linear'
         ev = float(np.max(np.abs(O.f64(v) - rv)))
         ed = float(np.max(np.abs(O.f64(d) - rd)))
-        ctx.check(ev <= 4 * n * eps * sv and ed <= 16 * n * eps * sd, clause, wit,
+        fl = O.underflow_floor(eps, n)
+        ctx.check(ev <= 4 * n * eps * sv + fl and ed <= 16 * n * eps * sd + fl, clause, wit,
                   'a=%r+%r*i, dt=%r, n=%d: max|v - closed form|=%.3g (allowed %.3g), max|d - closed form|=%.3g '
                   '(allowed %.3g)' % (a0, k, dt, n, ev, 4 * n * eps * sv, ed, 16 * n * eps * sd))
     # relations between executions
@@ -965,7 +1001,8 @@ def _array_case(eqsig, ctx, case, held):
         Y, v2, d2, raw = out
         ev = float(np.max(np.abs(v2 - factor * v)))
         ed = float(np.max(np.abs(d2 - factor * d)))
-        tv, td = 4 * epsx * abs(factor) * Vx, 4 * epsx * abs(factor) * Dx
+        fl = O.underflow_floor(epsx, n)      # (2^k scaling is not exact for operands in the subnormal range)
+        tv, td = 4 * epsx * abs(factor) * Vx + fl, 4 * epsx * abs(factor) * Dx + fl
         ctx.check(ev <= tv and ed <= td, clause, wit,
                   'series of (%r * record) differ from %r * series: max dv=%.3g (allowed %.3g) max dd=%.3g (allowed '
                   '%.3g), trap=%r' % (factor, factor, ev, tv, ed, td, trap))
@@ -975,7 +1012,8 @@ def _array_case(eqsig, ctx, case, held):
         if None in (p_x, p_v, p_d, q_x, q_v, q_d):
             continue
         f = abs(factor)
-        okp = (q_x == f * p_x and abs(q_v - f * p_v) <= 4 * epsx * f * p_v and abs(q_d - f * p_d) <= 4 * epsx * f * p_d)
+        okp = (q_x == f * p_x and abs(q_v - f * p_v) <= 4 * epsx * f * p_v + fl
+               and abs(q_d - f * p_d) <= 4 * epsx * f * p_d + fl)
         ctx.check(okp, 'peak.sign-invariant' if factor == -1.0 else 'peak.scale|alpha|', wit,
                   'peaks of (%r * record): PGA %r PGV %r PGD %r; |factor| * peaks of record: %r %r %r (trap=%r)'
                   % (factor, q_x, q_v, q_d, f * p_x, f * p_v, f * p_d, trap))
